@@ -123,7 +123,11 @@ def big_files_via_cli(chk, exe, wd, huge_pool=False):
                 ln = os.path.join(wd, 'sw%d.link' % i)
                 if not os.path.exists(ln):
                     os.symlink(bc, ln)
+                noext = os.path.join(wd, 'noext%d' % i)
+                open(noext, 'wb').write(bytes(o['bytes']))
+                open(noext + '.bc', 'wb').write(bytes(souts[(i + 1) % len(souts)].get('bytes', [])))
                 for cfgname, cmd in (('`fml execute SYMLINK`', '"%s" execute "%s"' % (exe, ln)), ('`fml execute <(cat FILE)` (a pipe)', '"%s" execute <(cat "%s")' % (exe, bc)),
+                                     ('`fml execute NAME` (no extension; NAME.bc exists and holds another program)', '"%s" execute "%s"' % (exe, noext)),
                                      ('`cat FILE | fml execute /dev/stdin`', 'cat "%s" | "%s" execute /dev/stdin' % (bc, exe))):
                     pr = subprocess.run(['bash', '-c', cmd], cwd=wd, stdout=subprocess.PIPE, stderr=subprocess.PIPE, timeout=60)
                     r.append({'key': sw[i]['name'] + ' :: outcome', 'val': {'ok': pr.returncode == 0, 'out': hashlib.sha1(pr.stdout).hexdigest()}, 'cfg': cfgname})
